@@ -91,6 +91,20 @@ structure Bay.Safe (b : Bay) : Prop where
   selRaw : ∀ (mi : Nat) (m : Mux) (mj : Nat) (m' : Mux), b.muxes[mi]? = some m →
     b.muxes[mj]? = some m' → m'.out ≠ m.sel
 
+/-- Two-level wiring: every select and input channel is a source (id below
+    `L`: thread state, `th_running`, raw model channels), every output is above
+    `L` and private to its mux. -/
+def Bay.Layered (b : Bay) (L : Nat) : Prop :=
+  ∀ (mi : Nat) (m : Mux), b.muxes[mi]? = some m →
+    m.sel < L ∧ (∀ (i c : Nat), m.inputs[i]? = some (some c) → c < L) ∧ L ≤ m.out ∧
+    ∀ (mj : Nat) (m' : Mux), b.muxes[mj]? = some m' → mj ≠ mi → m'.out ≠ m.out
+
+/-- No `cb_input` callback is enabled anywhere (true until the first propagation). -/
+def Bay.NoInputCbs (b : Bay) : Prop := ∀ (c mj i : Nat), Cb.muxInput mj i ∉ b.cbsOf c
+
+/-- Every channel still null (just connected, nothing written yet). -/
+def Bay.AllNull (b : Bay) : Prop := ∀ c : Nat, (b.chan c).cur = .null
+
 /-- Channel operations: they either leave the channel alone or make it dirty,
     and never touch the properties. -/
 def ChanOp (f : Chan → Except Err Chan) : Prop :=
